@@ -19,7 +19,7 @@ from vlib import harness
 ID = "C20"
 LEVEL = "exploration"
 RULE = ("a case is one tracker process + 1-3 client processes and a seeded script of 10-40 requests REGISTER / MAYBE_UNLINK / "
-        "UNREGISTER over <= 4 files and <= 2 folders (folders containing tracked files and nested tracked folders), resources removed by their owner while still registered, directories registered as files, salted with malformed lines (garbage, "
+        "UNREGISTER over <= 4 files and <= 2 folders (folders containing tracked files and nested tracked folders), resources removed by their owner while still registered, paths created again after they were deleted or while a name is registered / has just reached zero with its path missing (joblib registers folders before creating them), requests on missing paths, directories registered as files, salted with malformed lines (garbage, "
         "non-ASCII, unknown type, unknown command, decrement / unregister of unknown names), clients exiting normally or "
         "SIGKILLed at seeded positions, then end of input; the disk is compared with a ref-count model after every "
         "synchronised request and after the tracker exited; plus end-to-end runs (loky Parallel call with memmapped arguments, parent exiting or "
@@ -33,8 +33,8 @@ ASSUMPTIONS = [
     "a sentinel still present after 20 s while the tracker is alive counts as 'not deleted at zero'; a dead tracker as 'tracker stopped'",
 ]
 SHARDS = {"quick": 10, "thorough": 14}
-FLOORS = {"quick": {"e2e_runs": 6, "scripts": 120, "requests_checked": 1500, "malformed_requests": 200, "clients_killed": 40, "deletions_at_zero": 100},
-          "thorough": {"e2e_runs": 50, "scripts": 2500, "requests_checked": 40000, "malformed_requests": 4000, "clients_killed": 800, "deletions_at_zero": 3000}}
+FLOORS = {"quick": {"e2e_runs": 6, "scripts": 120, "requests_checked": 1500, "malformed_requests": 200, "clients_killed": 40, "deletions_at_zero": 100, "zero_reached_while_path_missing": 40, "created_again_after_zero_while_missing": 30},
+          "thorough": {"e2e_runs": 50, "scripts": 2500, "requests_checked": 40000, "malformed_requests": 4000, "clients_killed": 800, "deletions_at_zero": 2000, "zero_reached_while_path_missing": 800, "created_again_after_zero_while_missing": 600}}
 CLIENT = os.path.join(harness.VERIF, "checks", "c20_client.py")
 
 
@@ -199,7 +199,7 @@ def run_case(case, ctx):
         # names with separator characters (':' splits the request line), spaces and a long one
         styles = ["res{i}.bin", "res{i}.bin", "re:s:{i}.bin", "res {i} x.bin", "res{i}:", "r" * 180 + "{i}.bin"]
         files = [os.path.join(d, rng.choice(styles).format(i=i)) for i in range(rng.randint(1, 4))]
-        folders = [os.path.join(d, f"dir{i}") for i in range(rng.randint(0, 2))]
+        folders = [os.path.join(d, f"dir{i}") for i in range(rng.choice([0, 1, 1, 2]))]
         inside = {}
         for fo in list(folders):
             os.makedirs(fo)
@@ -238,21 +238,18 @@ def run_case(case, ctx):
                 time.sleep(0.0005)
             return None
 
-        def expect_exists(p):
-            if p in gone:
-                return False
-            q = p
-            while q in inside:          # a path disappears with any enclosing folder that is gone
-                q = inside[q]
-                if q in gone:
-                    return False
-            return True
+        present = set(tracked_files + folders + decoys)     # reference model of the disk
 
-        gone = set()
+        def expect_exists(p):
+            return p in present
+
+        def model_remove(p):
+            for q in [q for q in present if q == p or q.startswith(p + os.sep)]:
+                present.discard(q)
 
         def check(after):
             for p in tracked_files + folders + decoys:
-                exp = expect_exists(p) if p not in decoys else not any(p.startswith(g + os.sep) for g in gone)
+                exp = expect_exists(p)
                 if os.path.exists(p) != exp:
                     kind = "decoy" if p in decoys else ("folder" if p in folders else "file")
                     if os.path.exists(p):
@@ -269,7 +266,71 @@ def run_case(case, ctx):
 
         nreq = rng.randint(10, 40)
         ok = True
-        for step in range(nreq):
+        # profile of the script: 'churn' scripts remove and re-create the tracked paths often and address missing paths often
+        churn = rng.random() < 0.4
+        b_mal, b_rm, b_create, b_wrong, b_exit = (0.08, 0.20, 0.36, 0.39, 0.44) if churn else (0.12, 0.17, 0.26, 0.30, 0.37)
+        p_existing = 0.45 if churn else 0.75
+        if churn:
+            ctx.count("churn_scripts")
+        planned = []    # forced steps (op, path) of a directed sub-sequence, executed before seeded choices resume
+
+        def rt_of(p):
+            return "folder" if p in folders else "file"
+
+        def creatable():
+            return [p for p in tracked_files + folders if p not in present and (inside.get(p) is None or inside[p] in present)]
+
+        def do_rm(p):
+            if p in folders:
+                shutil.rmtree(p)
+            else:
+                os.unlink(p)
+            model_remove(p)
+            script.append(("driver", "EXTERNAL_RM", os.path.basename(p)))
+            ctx.count("externally_removed_while_registered")
+
+        def do_create(p):
+            if p in folders:
+                os.makedirs(p)
+            else:
+                open(p, "w").close()
+            present.add(p)
+            script.append(("driver", "EXTERNAL_CREATE", os.path.basename(p), "count=%s" % count[rt_of(p)].get(p)))
+            ctx.count("paths_created_again")
+
+        def do_req(cl, ci, op, p):
+            rt = rt_of(p)
+            c = count[rt].get(p, 0)
+            if p not in present:
+                ctx.count("requests_on_missing_paths")
+            cl.send(op=op, name=p, rtype=rt)
+            script.append((ci, op, os.path.basename(p), rt))
+            if op == "REGISTER":
+                count[rt][p] = c + 1
+                ever.add(p)
+            elif op == "MAYBE_UNLINK":
+                if p in count[rt]:
+                    count[rt][p] -= 1
+                    if count[rt][p] == 0:
+                        del count[rt][p]
+                        if p in present:
+                            stats["deletions"] += 1
+                        else:
+                            ctx.count("zero_reached_while_path_missing")
+                            zero_missing.add(p)
+                        model_remove(p)
+                else:
+                    stats["malformed"] += 1   # decrement of a name the tracker does not know
+            elif op == "UNREGISTER":
+                if p in count[rt]:
+                    del count[rt][p]
+                else:
+                    stats["malformed"] += 1
+
+        zero_missing = set()
+        for step in range(nreq + 12):
+            if step >= nreq and not planned:
+                break
             live = [c for c in clients if c.alive]
             if not live:
                 break
@@ -277,38 +338,60 @@ def run_case(case, ctx):
             ci = clients.index(cl)
             k = rng.random()
             existing = [p for p in tracked_files + folders if expect_exists(p)]
-            if k < 0.12:
+            if planned:
+                op, p = planned.pop(0)
+                if op == "RM":
+                    if p not in present:
+                        continue
+                    do_rm(p)
+                elif op == "CREATE":
+                    if p not in creatable():
+                        continue
+                    do_create(p)
+                    if p in zero_missing:
+                        ctx.count("created_again_after_zero_while_missing")
+                else:
+                    do_req(cl, ci, op, p)
+            elif churn and k < 0.07:
+                # directed: a name reaches zero while its path is missing (the clean-up can only fail), the path is created
+                # afterwards - what follows (more requests, or the end of input) must treat it as never seen
+                p = rng.choice(folders + folders + tracked_files) if folders else rng.choice(tracked_files)
+                c = count[rt_of(p)].get(p, 0)
+                planned = ([("REGISTER", p)] if c == 0 else []) + [("RM", p)] + [("MAYBE_UNLINK", p)] * max(c, 1) + \
+                    [("MAYBE_UNLINK", p)] * rng.choice([0, 0, 1]) + [("CREATE", p)] + \
+                    rng.choice([[], [], [("REGISTER", p), ("REGISTER", p), ("MAYBE_UNLINK", p)], [("REGISTER", p), ("UNREGISTER", p)]])
+                continue
+            elif k < b_mal:
                 # malformed / unbalanced
                 kind = rng.choice(["garbage", "nonascii", "unknown-type", "unknown-cmd", "dec-unknown", "unreg-unknown", "no-colon", "empty"])
                 raw = {"garbage": b"\x00\x01\x02 what:ever\n", "nonascii": "REGISTER:/tmp/é:file\n".encode("utf8"),
                        "unknown-type": f"REGISTER:{d}/x:noexist\n".encode(), "unknown-cmd": f"FROBNICATE:{d}/x:file\n".encode(),
                        "dec-unknown": f"MAYBE_UNLINK:{d}/never-registered:file\n".encode(), "unreg-unknown": f"UNREGISTER:{d}/never-registered:folder\n".encode(),
                        "no-colon": b"justoneword\n", "empty": b"\n"}[kind]
-                ack = cl.send(op="RAW", hex=raw.hex())
+                cl.send(op="RAW", hex=raw.hex())
                 script.append((ci, "MALFORMED", kind))
                 stats["malformed"] += 1
-            elif k < 0.17 and [p for p in tracked_files + folders if expect_exists(p) and count["folder" if p in folders else "file"].get(p)]:
+            elif k < b_rm and [p for p in existing if count[rt_of(p)].get(p)]:
                 # the owner removes a still registered resource itself: the tracker's later clean-up of it will fail,
                 # which must not keep it from cleaning up anything else
-                cands = [p for p in tracked_files + folders if expect_exists(p) and count["folder" if p in folders else "file"].get(p)]
-                p = rng.choice(cands)
-                if p in folders:
-                    shutil.rmtree(p)
-                else:
-                    os.unlink(p)
-                gone.add(p)
-                script.append(("driver", "EXTERNAL_RM", os.path.basename(p)))
-                ctx.count("externally_removed_while_registered")
-            elif k < 0.21:
+                do_rm(rng.choice([p for p in existing if count[rt_of(p)].get(p)]))
+            elif k < b_create and creatable():
+                # a path that is gone (deleted at zero, removed by its owner) is created again - joblib itself registers
+                # its folders before creating them; what the tracker remembers about the old incarnation must not hit the new one
+                p = rng.choice(creatable())
+                do_create(p)
+                if p in zero_missing:
+                    ctx.count("created_again_after_zero_while_missing")
+            elif k < b_wrong:
                 # wrong resource type: a directory registered as a 'file' (its clean-up can only fail)
                 wt = os.path.join(d, f"wrongtype{step}")
                 os.makedirs(wt)
-                ack = cl.send(op="REGISTER", name=wt, rtype="file")
+                cl.send(op="REGISTER", name=wt, rtype="file")
                 if rng.random() < 0.4:
                     cl.send(op="MAYBE_UNLINK", name=wt, rtype="file")
                 script.append((ci, "REGISTER_DIR_AS_FILE", os.path.basename(wt)))
                 stats["malformed"] += 1
-            elif k < 0.28 and len(live) > 0 and rng.random() < 0.6:
+            elif k < b_exit and len(live) > 0 and rng.random() < 0.6:
                 if rng.random() < 0.5:
                     cl.kill()
                     script.append((ci, "KILLED"))
@@ -316,34 +399,12 @@ def run_case(case, ctx):
                 else:
                     cl.exit()
                     script.append((ci, "EXIT"))
-                if not any(c.alive for c in clients):
-                    pass
             else:
-                if not existing:
-                    continue
-                p = rng.choice(existing)
-                rt = "folder" if p in folders else "file"
-                c = count[rt].get(p, 0)
+                # any name of the universe: also one whose path does not exist (not yet, or not any more)
+                p = rng.choice(existing) if existing and rng.random() < p_existing else rng.choice(tracked_files + folders)
+                c = count[rt_of(p)].get(p, 0)
                 op = rng.choice(["REGISTER", "REGISTER", "MAYBE_UNLINK", "MAYBE_UNLINK", "UNREGISTER"] if c > 0 else ["REGISTER", "REGISTER", "REGISTER", "MAYBE_UNLINK", "UNREGISTER"])
-                ack = cl.send(op=op, name=p, rtype=rt)
-                script.append((ci, op, os.path.basename(p), rt))
-                if op == "REGISTER":
-                    count[rt][p] = c + 1
-                    ever.add(p)
-                elif op == "MAYBE_UNLINK":
-                    if p in count[rt]:
-                        count[rt][p] -= 1
-                        if count[rt][p] == 0:
-                            del count[rt][p]
-                            gone.add(p)
-                            stats["deletions"] += 1
-                    else:
-                        stats["malformed"] += 1   # decrement of a name the tracker does not know
-                elif op == "UNREGISTER":
-                    if p in count[rt]:
-                        del count[rt][p]
-                    else:
-                        stats["malformed"] += 1
+                do_req(cl, ci, op, p)
             why = sync()
             ctx.count("requests_checked")
             if why == "tracker-died":
@@ -384,7 +445,7 @@ def run_case(case, ctx):
                 # everything still registered must be gone now, the rest must have survived
                 for rt in ("file", "folder"):
                     for p in list(count[rt]):
-                        gone.add(p)
+                        model_remove(p)
                 count = {"file": {}, "folder": {}}
                 check("end of input (last client gone)")
             if stats["deletions"] and stats["malformed"]:
